@@ -1,5 +1,8 @@
-From Coq Require Import ZArith.
+(* Compiled on every check run (never cached): statement pins and axioms. *)
+From Coq Require Import ZArith NArith List Permutation.
+Import ListNotations.
 From Stam Require Import Base.Tac Model.Limit Model.Handles Spec.HandlesSpec Proofs.Limit Proofs.Handles Props.C08.
+From Stam Require Import Model.Offset Model.Store Model.DataValue Model.QuerySem Spec.QuerySpec Proofs.QuerySem.
 Check (C08_limit_is_slice : forall (X : Type) (bg en : Z) (l : list X), limit bg en l = slice_spec bg en l).
 Check (C08_union_spec : forall A B, ok A -> ok B ->
   arr (union A B) = (if srt A then sort (spec_union_list (arr A) (arr B)) else spec_union_list (arr A) (arr B))
@@ -7,6 +10,30 @@ Check (C08_union_spec : forall A B, ok A -> ok B ->
 Check (C08_union_members : forall A B x, ok A -> ok B -> contains (union A B) x = mem x (arr A) || mem x (arr B)).
 Check (C08_intersection_members : forall A B x, ok A -> ok B ->
   contains (intersection A B) x = mem x (arr A) && mem x (arr B)).
+Check (C08_level_selected : forall s e rt cs it,
+  In it (level s e rt cs None) <-> (In it (universe s rt) /\ forall c, In c cs -> csat s e c it = true)).
+Check (C08_level_NoDup : forall s e rt cs, NoDup (level s e rt cs None)).
+Check (C08_sem_perm : forall s q q' e, qperm q q' -> sem s e q = sem s e q').
+Check (C08_sem_perm_level : forall s e n rt cs cs' lim o sub,
+  Permutation cs cs' -> sem s e (Q n rt cs lim o sub) = sem s e (Q n rt cs' lim o sub)).
+Check (C08_union_perm : forall s e l l' it,
+  Permutation l l' -> csat s e (CUnion l) it = csat s e (CUnion l') it).
+Check (C08_sem_union : forall s e rt l,
+  level s e rt [CUnion l] None
+  = filter (fun it => existsb (existsb (item_eqb it)) (map (fun c => filter (csat s e c) (universe s rt)) l))
+           (universe s rt)).
+Check (C08_sem_union_members : forall s e rt l it,
+  In it (level s e rt [CUnion l] None) <-> exists c, In c l /\ In it (filter (csat s e c) (universe s rt))).
+Check (C08_sem_limit : forall s e rt cs bg en,
+  level s e rt cs (Some (bg, en)) = slice_spec bg en (level s e rt cs None)).
+Check (C08_sem_subquery : forall s e n rt cs lim o sq,
+  sem s e (Q n rt cs lim o (Some sq)) = nested s e n (level s e rt cs lim) sq).
+Check (C08_sem_subquery_rows : forall s e n rt cs lim o sq it r,
+  In (it :: r) (sem s e (Q n rt cs lim o (Some sq))) <->
+  In it (level s e rt cs lim)
+  /\ (In r (sem s ((n, it) :: e) sq) \/ (r = [] /\ q_opt sq = true /\ sem s ((n, it) :: e) sq = []))).
+Check (C08_sem_add : forall s a, exec_add s a (sem s [] (add_sub a)) = spec_add s a).
+Check (C08_sem_delete : forall s x sub, exec_delete s x sub (sem s [] sub) = spec_delete s x sub).
 Print Assumptions C08_limit_is_slice.
 Print Assumptions C08_from_iter_ok.
 Print Assumptions C08_contains.
@@ -16,3 +43,23 @@ Print Assumptions C08_union_members.
 Print Assumptions C08_intersection_spec.
 Print Assumptions C08_intersection_members.
 Print Assumptions C08_sort.
+Print Assumptions C08_level_selected.
+Print Assumptions C08_level_NoDup.
+Print Assumptions C08_sem_perm.
+Print Assumptions C08_sem_perm_level.
+Print Assumptions C08_union_perm.
+Print Assumptions C08_sem_union.
+Print Assumptions C08_sem_union_members.
+Print Assumptions C08_sem_limit.
+Print Assumptions C08_sem_subquery.
+Print Assumptions C08_sem_subquery_rows.
+Print Assumptions C08_sem_add.
+Print Assumptions C08_sem_delete.
+Print Assumptions Known_C08_position_witness.
+Print Assumptions Known_C08_indirect_witness.
+Print Assumptions Known_C08_optional_witness.
+Print Assumptions Known_C08_limit_order_witness.
+Print Assumptions Known_C08_orphan_text_witness.
+Print Assumptions Known_C08_text_occurrences_witness.
+Print Assumptions Known_C08_text_any_witness.
+Print Assumptions Known_C08_text_union_witness.
